@@ -63,7 +63,7 @@ def alphabet(maxdev, nl):
     return _ALPHA[key]
 
 
-def extract(binpath, name, cfg, maxdev, threads=8):
+def extract(binpath, name, cfg, maxdev, threads=8, max_states=20000):
     """Leg B step 1: exhaustive exploration of the real tracker's state graph."""
     d = vlib.workdir(os.path.join("tracker", "b-" + name))
     alpha, reqs = alphabet(maxdev, cfg["nl"])
@@ -71,7 +71,7 @@ def extract(binpath, name, cfg, maxdev, threads=8):
     json.dump(cfg, open(cfgf, "w"))
     t0 = time.time()
     stats = vlib.run_bin(binpath, ["explore", "--cfg", cfgf, "--alphabet", alpha, "--out", os.path.join(d, "ex"),
-                                   "--threads", threads])
+                                   "--threads", threads, "--max-states", max_states])
     nodes = os.path.join(d, "nodes.ndjson")
     rows = vlib.merge_nodes(os.path.join(d, "ex"), nodes)
     details = []
@@ -127,6 +127,8 @@ def paths(rows):
 
 def deviations(r):
     dev = [k for k in ("link", "pow", "db", "pf", "att") if r[k] != DEFAULT[k]]
+    if r.get("t", "same") != "same":
+        dev.append("late")
     if r["kind"] != "compact":
         dev.append(r["kind"])
     if r["op"] == "rm" and r["prev"] != "right":
